@@ -506,6 +506,22 @@ func c16Kinds(c *Ctx, reader *ssa.Function) {
 		}
 		c.R.Check(rule, "kind:"+kn.name, rp, hit, map[string]string{"Map": "a map base must be read with MapIndex(reflect.ValueOf(key))", "Struct": "a struct base must be read with FieldByName(key)"}[kn.name])
 	}
+	// a key that is present must be read even when its value is the zero value of the element type:
+	// "missing" is an invalid reflect.Value, not a zero one
+	for _, kn := range kinds {
+		if kn.name != "Map" {
+			continue
+		}
+		r := c.foldWith(reader, 0, pinCallFn(isNull, cFalse, nil), pinCall("Kind", cInt(kn.val), func(call *ssa.Call) bool { return call.Call.IsInvoke() }),
+			pinCall("(reflect.Value).Kind", cInt(kn.val), nil), pinCall("(reflect.Value).IsValid", cTrue, nil), pinCall("(reflect.Value).IsZero", cTrue, nil), pinCall("(reflect.Value).IsNil", cFalse, nil))
+		readsIt := len(r.Returns) > 0
+		for _, ret := range r.Returns {
+			if isNilConst(ret.Results[0]) {
+				readsIt = false
+			}
+		}
+		c.R.Check(rule, "map-entry-present-with-zero-value", rp, readsIt, "a map entry that is present but holds the zero value of the element type (0 in a map[string]int, \"\" in a map[string]string, false) must be read as that value; the reader returns null for it because it treats IsZero() like a missing key")
+	}
 	// any other kind: (nil, nil)
 	for _, kn := range kinds {
 		if kn.name == "Map" || kn.name == "Struct" || kn.name == "Invalid" {
